@@ -34,6 +34,7 @@ DEFAULT = dict(
     sl_dist=(3, 7), tp_dist=(2, 6), max_exit_rows=2, exits_in='go',          # 'go' | 'on_open' | 'mixed' | 'none'
     p_cancel=0.4, p_edit=0.15, p_liq=0.03, p_edit_reduced=0.4, p_edit_increased=0.3, p_edit_entry=0.0,
     p_wrong_side=0.0, p_oversize=0.0, oversize_sl=False, edit_offsets=None,
+    p_signed=0.5,             # on a short: exit rows declared with the signed quantity (self.position.qty < 0), as liquidate() does
     p_withdraw=0.05,          # withdraw one side of the exits by declaring []
     p_move_entry=0.0,         # re-declare the entry rows of an OPEN position with one price moved by 1-2 ticks (scale-in rows)
     p_inplace=0.12,           # in-place edits of an already formatted declaration (ndarray item / column assignment)
@@ -141,6 +142,13 @@ def make_strategy(policy, log):
                 arr[:, 1] += d
             return True
 
+        @staticmethod
+        def _signed(r, sign, rows):
+            """quantities of exit rows may carry the sign of the position (take_profit = self.position.qty, target)"""
+            if sign < 0 and r.random() < P['p_signed']:
+                return [(-q, p) for q, p in rows]
+            return rows
+
         def _withdraw(self, r):
             """take one side of the exits back by declaring an empty list"""
             sides_ = [n for n in ('stop_loss', 'take_profit') if len(rows_of(getattr(self, n))) > 0]
@@ -168,10 +176,10 @@ def make_strategy(policy, log):
                 sl = self._ladder(r, P['sl_dist'], -sign, total, self.price)
                 if P['oversize_sl']:
                     sl = [(total, sl[0][1])]
-                self.stop_loss = self._style(r, sl)
+                self.stop_loss = self._style(r, self._signed(r, sign, sl))
             if which in ('tp', 'both'):
                 tp = self._ladder(r, P['tp_dist'], sign, total, self.price)
-                self.take_profit = self._style(r, tp)
+                self.take_profit = self._style(r, self._signed(r, sign, tp))
 
         def go_long(self):
             r = self._r('go_long')
